@@ -171,8 +171,12 @@ fn run<T: Scalar>(c: &Case, xs: &[f64], a: f64, b: f64, mode: Mode, out: &mut Tr
         }
     };
     let mut big = 0f64;
+    let (mut hlo, mut hhi) = (f64::INFINITY, f64::NEG_INFINITY);
+    let on_welford = matches!(c.name, "Vst" | "Vsct" | "WelfordOnline");
     for t in 0..xs.len() {
         big = big.max(xs[t].abs());
+        hlo = hlo.min(xs[t]);
+        hhi = hhi.max(xs[t]);
         let w = &xs[(t + 1).saturating_sub(window)..=t];
         let lo = w.iter().cloned().fold(f64::INFINITY, f64::min);
         let hi = w.iter().cloned().fold(f64::NEG_INFINITY, f64::max);
@@ -182,6 +186,20 @@ fn run<T: Scalar>(c: &Case, xs: &[f64], a: f64, b: f64, mode: Mode, out: &mut Tr
         if flat && (c.name == "Vst" || c.rel == Rel::NegationRsi) {
             out.count("steps_exempt_degenerate_window", 1);
             continue;
+        }
+        // views on WelfordOnline's running m2: a window whose exact variance lies inside the rounding
+        // residue of that accumulator (about eps x level x spread of the history per update; known
+        // findings of C07 / C16) may be taken for flat, and the flat-window convention (Vst: the
+        // value itself) is not invariant.  Such steps carry no claim in floating point.
+        if !T::EXACT && on_welford && w.len() > 1 {
+            let var_e = crate::xq::scoped(|| {
+                let wq: Vec<Xq> = w.iter().map(|x| Xq::of(*x)).collect();
+                crate::oracle::window::sample_var(&wq).f()
+            });
+            if !(var_e > 64.0 * f64::EPSILON * big * (hhi - hlo) * ((t + 1) as f64).sqrt()) {
+                out.count("f64_steps_exempt_window_variance_inside_m2_rounding_residue", 1);
+                continue;
+            }
         }
         let (p, q) = (o1[t], o2[t]);
         let expect: Option<T> = match c.rel {
@@ -300,10 +318,22 @@ impl Monitor for C12 {
                 let a: f64 = *rng.pick(&[2.0, 0.5, 4.0, 1024.0, 0.0078125, 65536.0, 8.673617379884035e-19, 1.152921504606847e18, 9.313225746154785e-10, 1073741824.0, 2.9802322387695312e-8]);
                 // a dyadic offset stays exact only next to a moderate scale
                 let moderate = a.log2().abs() <= 20.0;
-                (a, if c.differences_only && moderate { *rng.pick(&[0.0, 1.0, -2.5, 64.0, 1024.0]) } else { 0.0 })
+                // (the generators' values are multiples of 2^-10 below 2^15: adding 2^30 or -2^33 is exact)
+                (a, if c.differences_only && moderate { *rng.pick(&[0.0, 1.0, -2.5, 64.0, 1024.0, 1073741824.0, -8589934592.0]) } else { 0.0 })
             }
             Mode::General => (*rng.pick(&[3.0, 0.1, 2.5, 7.0, 0.3]), if c.irrational { *rng.pick(&[0.0, 1.0, -2.5]) } else { *rng.pick(&[0.0, 1.0, -2.5, 10.0]) }),
         };
+        // a fifth of the power-of-two trials runs at a high level (2^30 or 2^34 above the generated
+        // values, which stay exact): scaling by a power of two is bit-exact at any level, whereas a
+        // guard that compares the spread with the level ("variance below eps x mean^2 is noise") gives
+        // the level a meaning it must not have
+        if mode == Mode::Pow2 && a.log2().abs() <= 20.0 && rng.chance(1, 5) {
+            let level = *rng.pick(&[1073741824.0, 17179869184.0]);
+            for x in xs.iter_mut() {
+                *x += level;
+            }
+            out.count("power_of_two_trials_at_a_high_level", 1);
+        }
         // a quarter of the offset trials shifts the stream so that its first sample is exactly 0
         // (a sentinel such as "min == 0 means nothing seen yet" shows only there)
         let (a, b) = if c.rel == Rel::AffineInvariant && !xs.is_empty() && rng.chance(1, 4) && (mode == Mode::Exact || (mode == Mode::Pow2 && c.differences_only && a.log2().abs() <= 20.0)) {
